@@ -159,6 +159,16 @@ struct Semi {
 };
 static_assert(std::is_trivially_destructible_v<Semi> && !std::is_trivially_default_constructible_v<Semi>);
 
+// not trivially default constructible (it owns a std::string) but with a scalar member and an implicit default
+// constructor: value-initialisation zeroes `v`, default-initialisation leaves it untouched
+struct SemiS {
+	i64         v;
+	std::string s;
+	friend bool operator==(SemiS const& a, SemiS const& b) { return a.v == b.v; }
+	friend bool operator!=(SemiS const& a, SemiS const& b) { return a.v != b.v; }
+};
+static_assert(!std::is_trivially_default_constructible_v<SemiS>);
+
 struct ConvTriv {  // convertible to Triv
 	i64 v = 0;
 	operator Triv() const { return Triv{v}; }  // NOLINT
@@ -202,6 +212,16 @@ template<> struct elem_traits<int> {
 	static auto make_conv(i64 v) -> conv { return static_cast<int>(v); }
 	static auto read(E const& e, bool& /*ok*/) -> i64 { return e == static_cast<int>(0xA5A5A5A5u) ? FRESH_I64 : static_cast<i64>(e); }
 	static void write(E& e, i64 v) { e = static_cast<int>(v); }
+	static constexpr i64 value_init = 0;
+};
+template<> struct elem_traits<SemiS> {
+	using E    = SemiS;
+	using conv = SemiS;
+	static constexpr bool tracked = false, throwing_move = false, trivial = false;
+	static auto make(i64 v) -> E { return E{v, "s"}; }
+	static auto make_conv(i64 v) -> conv { return make(v); }
+	static auto read(E const& e, bool& /*ok*/) -> i64 { return e.v; }
+	static void write(E& e, i64 v) { e.v = v; }
 	static constexpr i64 value_init = 0;
 };
 template<> struct elem_traits<Semi> {
